@@ -79,7 +79,7 @@ func genSchedImpl(ovDir string, srcs []string, repl map[string]string) error {
 	if err != nil {
 		return err
 	}
-	info := &types.Info{Types: map[ast.Expr]types.TypeAndValue{}}
+	info := &types.Info{Types: map[ast.Expr]types.TypeAndValue{}, Uses: map[*ast.Ident]types.Object{}}
 	conf := types.Config{Importer: importer.ForCompiler(fset, "gc", lookup), Error: func(error) {}}
 	if _, err := conf.Check("github.com/absfs/absnfs", fset, files, info); err != nil {
 		return fmt.Errorf("type-check of the working tree failed: %v", err)
@@ -292,6 +292,14 @@ func (rw *rewriter) expr(e ast.Expr) ast.Expr {
 		rw.walk(x.Type)
 		x.Body = rw.stmt(x.Body).(*ast.BlockStmt)
 		return x
+	case *ast.SelectorExpr:
+		// net.Listen is the one environment call the harness must own: it goes through a
+		// package-level variable (default: the real net.Listen) defined in the harness
+		if id, ok := x.X.(*ast.Ident); ok && id.Name == "net" && x.Sel.Name == "Listen" {
+			if _, isPkg := rw.info.Uses[id].(*types.PkgName); isPkg {
+				return ast.NewIdent("zzNetListen")
+			}
+		}
 	}
 	rw.walk(e)
 	return e
